@@ -25,7 +25,7 @@ theorem validFrom_tip {own : Own} {chain : List Block} {b : Block} (hV : ChainVa
 
 /-- Rollback's outer-loop iteration at the height of the tip block `b`: the store goes from the books of
     `chain ++ [b]` to the books of `chain` (block records and balances are written back afterwards) -/
-theorem rollbackBlockAt_tip {c : Ctx} {ready : List Wid} (hAR : AllReady c.own ready) (hcb : KnownCbPlain c)
+theorem rollbackBlockAt_tip {c : Ctx} {ready : List Wid} (hAR : AllReady c.own ready)
     {chain : List Block} {b : Block} (hV : ChainValid c.own (chain ++ [b])) (hH : HeightsOK (chain ++ [b]))
     (hk : AMap.get c.node.known b.id = some b) (acc : RbAcc)
     (hR : AgreeR acc.s (bookOf c.p c.own (chain ++ [b])))
@@ -59,13 +59,13 @@ theorem rollbackBlockAt_tip {c : Ctx} {ready : List Wid} (hAR : AllReady c.own r
     rw [bookOf_snoc] at hR hB
     obtain ⟨acc', hrun, hR', hB', hS', hH'⟩ :=
       rollbackOccs_fold hAR ⟨b.height, b.id⟩ (occsOfBlock b) hL hG hW hGl h2 (validFrom_tip hV)
-        (occFacts_of_known hcb hk) { acc with heights := acc.heights ++ [b.height] } hR hB
+        (occFacts_of_known hk) { acc with heights := acc.heights ++ [b.height] } hR hB
     rw [htl] at hrun
     exact ⟨acc', hrun, hR', hB', hS', Or.inr hH'⟩
 
 /-- `TxStore.Rollback(b.height)` on the store of `chain ++ [b]`: mined buckets of `chain`, balances of the
     ready wallets = totals of `chain`; synced-to table and wallet status unchanged -/
-theorem rollback_tip {c : Ctx} (hcb : KnownCbPlain c) {s : Store} {chain : List Block} {b : Block}
+theorem rollback_tip {c : Ctx} {s : Store} {chain : List Block} {b : Block}
     (hI : Inv c s (chain ++ [b])) (hV : ChainValid c.own (chain ++ [b])) (hH : HeightsOK (chain ++ [b]))
     (hk : AMap.get c.node.known b.id = some b) (hAR : AllReady c.own (readyWallets s c.wallets)) :
     ∃ s1, rollback c s b.height = .ok s1 ∧ AgreeM s1 (bookOf c.p c.own chain) ∧
@@ -81,7 +81,7 @@ theorem rollback_tip {c : Ctx} (hcb : KnownCbPlain c) {s : Store} {chain : List 
     rw [hst, show b.height + 1 - b.height = 1 by omega]
     simp [List.range_succ]
   obtain ⟨acc', hrun, hR', hB', hS', hH'⟩ :=
-    rollbackBlockAt_tip hAR hcb hV hH hk { s := s, bals := s.balance } hI.agree.toR (hI.agree.blocks b.height)
+    rollbackBlockAt_tip hAR hV hH hk { s := s, bals := s.balance } hI.agree.toR (hI.agree.blocks b.height)
       (fun w hw => hI.bal w hw)
   have hblocks0 : (bookOf c.p c.own chain).blocks b.height = none :=
     bookOf_blocks_none c.p c.own chain (heightsOK_prefix hH) b.height (by omega)
@@ -195,7 +195,7 @@ theorem resetSyncedTo_one (s : Store) (h : Nat) (hh : h ≠ 0) (hs : s.syncedTo 
 
 /-- DISCONNECTING THE TIP BLOCK of the wallet's chain succeeds and yields the invariant for the chain
     without it; the set of ready wallets does not change. -/
-theorem disconnect_sound {c : Ctx} (hcb : KnownCbPlain c) : DisconnectSpec c := by
+theorem disconnect_sound {c : Ctx} : DisconnectSpec c := by
   intro s chain b hI hne hV hH hk hAR
   have hbh : b.height = chain.length := heightsOK_mid hH
   have hlen : chain.length ≠ 0 := fun h => hne (List.eq_nil_of_length_eq_zero h)
@@ -204,7 +204,7 @@ theorem disconnect_sound {c : Ctx} (hcb : KnownCbPlain c) : DisconnectSpec c := 
     have := hI.syncedTo
     simp only [List.length_append, List.length_singleton] at this
     omega
-  obtain ⟨s1, hrun, hM1, hbal1, hsy1, hst1, hstat1⟩ := rollback_tip hcb hI hV hH hk hAR
+  obtain ⟨s1, hrun, hM1, hbal1, hsy1, hst1, hstat1⟩ := rollback_tip hI hV hH hk hAR
   have hreset := resetSyncedTo_one s1 b.height h0 (hst1.trans hst)
   have hnot : ¬ b.height > s.syncedTo := by omega
   refine ⟨{ resetSyncedTo s1 (b.height - 1) with
